@@ -88,11 +88,12 @@ BadSubscribe(s, ch) ==
   /\ nextEv <= MaxEv
   /\ UNCHANGED core
   /\ obs' = [a |-> "BadSubscribe", s |-> s, ch |-> ch, kind |-> IF nextEv % 2 = 0 THEN "wait" ELSE "stream", r |-> "UnboundSignal"]
-Next == \/ \E s \in Subs, ch \in Chans : BadSubscribe(s, ch)
-        \/ \E s \in Subs, chs \in ChanSeqs, f \in Filters, qm \in QMaxes : Subscribe(s, chs, f, qm)
+Next == \/ \E s \in Subs, chs \in ChanSeqs, f \in Filters, qm \in QMaxes : Subscribe(s, chs, f, qm)
         \/ \E s \in Subs, chs \in ChanSeqs, f \in Filters : WaitEvent(s, chs, f)
         \/ \E ch \in Chans, w \in BOOLEAN : Dispatch(ch, w)
         \/ \E s \in Subs : Consume(s) \/ Leave(s) \/ Abandon(s)
+        \* last, so that the walker (which takes a state's transitions from the end of the dump) tries it before the dispatches
+        \/ \E s \in Subs, ch \in Chans : BadSubscribe(s, ch)
 (* ------------------------------------------------ properties of the design ------------------------------------------- *)
 \* C10: what a subscriber has yielded is in dispatch order without duplicates, passes its filter and comes from its channels (C11)
 InOrder == \A s \in Subs : \A i \in 1..(Len(sub[s].got) - 1) : sub[s].got[i][1] < sub[s].got[i + 1][1]
